@@ -172,6 +172,12 @@ var goroutineHeader = regexp.MustCompile(`(?m)^goroutine \d+ \[([^\]]+)\]:$`)
 // release another: nothing can ever wake the waiters. (Delays injected by the harness are
 // time.Sleep states and make the predicate false.)
 func provenDeadlock(unfinished int) (bool, string) {
+	return provenDeadlockOf(unfinished, "c12.RunThreadsCase.func", "c12.RunThreadsCase(")
+}
+
+// provenDeadlockOf is provenDeadlock for application goroutines recognised by appMarker (harnessMarker: the
+// frame of the harness goroutine that takes the dump).
+func provenDeadlockOf(unfinished int, appMarker, harnessMarker string) (bool, string) {
 	if unfinished <= 0 {
 		return false, ""
 	}
@@ -194,12 +200,12 @@ func provenDeadlock(unfinished int) (bool, string) {
 			continue
 		}
 		state := m[1]
-		isApp := strings.Contains(b, "c12.RunThreadsCase.func")
+		isApp := strings.Contains(b, appMarker)
 		isDriver := strings.Contains(b, "/amd/driver.") || strings.Contains(b, "amd/driver.(*")
 		if !isApp && !isDriver {
 			continue
 		}
-		if strings.Contains(b, "c12.RunThreadsCase(") && !isApp {
+		if strings.Contains(b, harnessMarker) && !isApp {
 			continue // the harness goroutine itself (it is the one taking this dump)
 		}
 		if !parked(state) {
